@@ -10,9 +10,9 @@ from vlib import Result, f2b, enc_list, close
 
 PROP = 'C08'
 META = {
-    'level_text': 'Lean 4 theorems, for every linearly ordered field, every grid, every distribution and operation sequences of every length (induction over the operation list), about an executable model of reset / createBackup / revert / changeSizeClasses / addSizeClasses / adjustSizeClassesEuler / UpdatePBMEuler / LoadDistribution and the ...FromN moment functions: the consistency invariant (class count >= 1, array lengths, boundaries = linspace(min,max) strictly increasing from min to max, centres = midpoints, populations >= 0, consistent backup) holds initially and is preserved by every operation under its stated precondition; extension leaves existing boundaries/populations and every moment unchanged; re-meshing preserves the third moment iff (newV != 0 or M3 = 0), with a proved concrete counterexample to the unrestricted claim; adaptive cap; reset; backup/revert; moment purity.  The model is tied to PopulationBalance.py by differential correspondence on random operation sequences on every run and the predicates are evaluated directly on the implementation.',
-    'level_note': 'Trusted: Lean kernel + Mathlib, axioms propext/Classical.choice/Quot.sound; the hand model KawinV.Grid equals the NumPy code only as far as this run compared them (hundreds to thousands of operation sequences, every public attribute after every operation); exact-field arithmetic instead of IEEE doubles (strict monotonicity of linspace, exact moment equality on extension are exact-field facts, monitored on doubles to tolerance); NaN/inf populations and NumPy length-1 broadcasting are outside the model.  The full claim "re-meshing preserves M3 whenever the new grid covers the populated range" is FALSE of the code (recorded finding); PSD recording (record/setPSDtoRecordedTime) is not modelled.',
-    'technique': 'Lean 4 proof over ordered fields (induction over operation sequences) + model/implementation differential correspondence on operation sequences + direct oracle',
+    'level_text': 'Lean 4 theorems, for every linearly ordered field, every grid, every distribution and operation sequences of every length (induction over the operation list), about an executable model of reset / createBackup / revert / changeSizeClasses / addSizeClasses / adjustSizeClassesEuler / UpdatePBMEuler / LoadDistribution and the ...FromN moment functions: the consistency invariant (class count >= 1, array lengths, boundaries = linspace(min,max) strictly increasing from min to max, centres = midpoints, populations >= 0, consistent backup) holds after construction and is preserved by every operation under its stated precondition (inv_init, inv_step, inv_run, inv_spec); extension leaves existing boundaries, populations, centres and every moment unchanged; re-meshing preserves the third moment iff (newV != 0 or M3 = 0), and the unrestricted claim is refuted on concrete rational witnesses (remesh_can_vanish, adjust_can_vanish, adjust_can_vanish_224); adaptive cap; reset; backup/revert across operations; moment purity.  The model is tied to PopulationBalance.py by differential correspondence on random operation sequences on every run (every attribute after every operation) and the predicates are also evaluated directly on the implementation.',
+    'level_note': 'Trusted: Lean kernel + Mathlib, axioms propext/Classical.choice/Quot.sound (the concrete witnesses are evaluated by the kernel, `decide +kernel`, no extra axioms); the hand model KawinV.Grid equals the NumPy code only as far as this run compared them (about 900 / 12000 operation sequences); exact-field arithmetic instead of IEEE doubles (strict monotonicity of linspace and exact moment equality on extension are exact-field facts, monitored on doubles to tolerance); NaN/inf populations, NumPy length-1 broadcasting and PSD recording (record / setPSDtoRecordedTime) are outside the model; radii are assumed non-negative (cMin >= 0).  The full claim "re-meshing preserves M3 whenever the new grid covers the populated range" is FALSE of the code (recorded finding remesh-vanish-no-new-centre-in-support); the theorem proved is the iff-characterisation.  adjustSizeClassesEuler can raise IndexError (PSDsize[int(minBins/2)] on a grid with fewer classes): the model returns none there and the invariant theorem speaks about successful operations.',
+    'technique': 'Lean 4 proof over ordered fields (induction over operation sequences) + model/implementation differential correspondence on operation sequences + direct oracle with delta-debugging of failing sequences',
     'design_ref': 'DESIGN.md section 6, C08',
 }
 LEAN_MODULES = ['KawinV.Props.C08']
@@ -347,7 +347,9 @@ def centre_in_support(pre_psd, pre_bounds, new_size):
     for j in np.nonzero(pre_psd > 0)[0]:
         lo = -math.inf if j == 0 else c[j - 1]
         hi = math.inf if j == n - 1 else c[j + 1]
-        if np.any((new_size > lo) & (new_size < hi)):
+        # open support; a centre that sits (to rounding) on its edge interpolates to zero
+        m = 1e-12 * max(abs(c[j]), abs(c[min(j + 1, n - 1)]))
+        if np.any((new_size > lo + m) & (new_size < hi - m)):
             return True
     return False
 
@@ -368,7 +370,13 @@ def remesh_noise(old_psd, old_bounds, post):
         den = old_psd / np.diff(old_bounds)
         sl = np.abs(np.diff(den) / np.diff(r))
         j = np.clip(np.searchsorted(r, x, 'right') - 1, 0, len(sl) - 1)
-        s_ = np.maximum(sl[j], np.maximum(sl[np.clip(j - 1, 0, len(sl) - 1)], sl[np.clip(j + 1, 0, len(sl) - 1)]))
+        # the neighbouring segment matters only when the centre sits (to rounding) on the common old centre
+        s_ = sl[j].copy()
+        near_lo = np.abs(x - r[j]) <= 1e-9 * np.abs(x)
+        near_hi = np.abs(r[np.clip(j + 1, 0, len(r) - 1)] - x) <= 1e-9 * np.abs(x)
+        s_ = np.where(near_lo, np.maximum(s_, sl[np.clip(j - 1, 0, len(sl) - 1)]), s_)
+        s_ = np.where(near_hi, np.maximum(s_, sl[np.clip(j + 1, 0, len(sl) - 1)]), s_)
+        s_ = np.where((x < r[0]) | (x > r[-1]), 0.0, s_)       # flat outside
         raw = np.interp(x, r, den) * w
         newV = float(np.sum(raw * x ** 3)); oldV = float(np.sum(old_psd * r ** 3))
         if not newV > 0:
@@ -428,9 +436,15 @@ def run_impl(init, recipes, res=None):
             if q.size:
                 tol = np.full(len(q), 1e-9) if noise is None or len(noise) != len(q) else np.maximum(1e-9, 4 * noise)
                 if np.any(((noise is not None) | (q != 1.0)) & (np.abs(q - 1.0) <= tol)):
-                    cut = 'near-tie'; break
+                    cut = 'near-tie'
+                    if res is not None:
+                        res.count('tie:population-at-threshold-1')
+                    break
         if t in ('adjust', 'change') and noise is not None and len(noise) and np.any(noise > 1e-10 * max(float(np.max(np.abs(p.PSD))), 1e-300)):
-            cut = 'near-tie'; break       # an ill-conditioned re-mesh result would be re-meshed again: rounding noise is amplified
+            cut = 'near-tie'              # an ill-conditioned re-mesh result would be re-meshed again: rounding noise is amplified
+            if res is not None:
+                res.count('tie:ill-conditioned-remesh-result-reused')
+            break
         pre = pre_ok(p, op)
         if res is not None:
             res.count('op:' + t)
